@@ -3,6 +3,7 @@
    (X509_check_host / X509_check_ip_asc / inet_pton) are recorded so that the model can take them as given. */
 #include "interpose.h"
 #include "hcommon.h"
+#include "hworld.h"
 extern void h_transcript_note(const char *s);
 extern char *h_transcript_take(void);
 
@@ -50,15 +51,100 @@ static SSL *h_tls_peer;
 static int h_tls_peerfd = -1;
 static char **h_tls_script;
 static int h_tls_nscript, h_tls_pos;
+/* srvconn for a TLS server (the proxy as TLS CLIENT): a listening socket stands in for the home server; the real tlsconnect connects to
+   it and the TLS server side of the handshake (TLS 1.3 with the PSK of the server block) is driven from inside poll(), whenever the
+   proxy's side waits; afterwards the real tlsclientrd reads what the script makes the peer write */
+static int h_tcl_mode, h_tcl_listener = -1, h_tcl_had, h_tcl_hs_done;
+static SSL_CTX *h_tcl_ctx;
+static const unsigned char *h_tcl_key;
+static int h_tcl_keylen;
+extern void h_clock_set(time_t t);
+extern time_t h_clock(void);
+unsigned h_tcl_sleep(unsigned n) {
+    if (h_tcl_mode) { /* the pacing of connection attempts: the virtual clock moves on, and the wait is part of the outcome */
+        char tmp[24];
+        snprintf(tmp, sizeof(tmp), "%u", n);
+        h_clock_set(h_clock() + n);
+        h_event("slept", tmp, NULL, -1);
+        return 0;
+    }
+    return h_sleep(n);
+}
+static int h_tcl_find(SSL *ssl, const unsigned char *id, size_t idlen, SSL_SESSION **sess) {
+    const SSL_CIPHER *cipher = SSL_get_pending_cipher(ssl);
+    (void)id;
+    (void)idlen;
+    *sess = SSL_SESSION_new();
+    if (!*sess || !cipher || !SSL_SESSION_set1_master_key(*sess, h_tcl_key, h_tcl_keylen) ||
+        !SSL_SESSION_set_protocol_version(*sess, TLS1_3_VERSION) || !SSL_SESSION_set_cipher(*sess, cipher))
+        return 0;
+    return 1;
+}
+static void h_tcl_drop_peer(void) {
+    if (h_tls_peer) {
+        SSL_free(h_tls_peer);
+        close(h_tls_peerfd);
+    }
+    h_tls_peer = NULL;
+    h_tls_peerfd = -1;
+}
 static int h_tls_poll(struct pollfd *fds, nfds_t n, int timeout) {
-    if (!h_tls_script)
+    if (!h_tls_script && !h_tcl_mode)
         return poll(fds, n, timeout);
+    if (h_tcl_mode) {
+        struct pollfd lf = {h_tcl_listener, POLLIN, 0};
+        while (poll(&lf, 1, 0) > 0) { /* the proxy has (re-)connected: the other end of that connection is the peer from now on */
+            int one = 1, fd = accept(h_tcl_listener, NULL, NULL);
+            if (fd < 0)
+                abort();
+            h_tcl_drop_peer();
+            setsockopt(fd, IPPROTO_TCP, TCP_NODELAY, &one, sizeof(one));
+            fcntl(fd, F_SETFL, fcntl(fd, F_GETFL, 0) | O_NONBLOCK);
+            h_tls_peer = SSL_new(h_tcl_ctx);
+            h_tls_peerfd = fd;
+            SSL_set_fd(h_tls_peer, fd);
+            SSL_set_accept_state(h_tls_peer);
+            h_tcl_hs_done = 0;
+            if (h_tcl_had)
+                h_event("reconnected", NULL, NULL, -1);
+            h_tcl_had = 1;
+        }
+        if (h_tls_peer && !h_tcl_hs_done) {
+            int i;
+            for (i = 0; i < 400; i++) {
+                int a = SSL_do_handshake(h_tls_peer), r;
+                if (a == 1) {
+                    h_tcl_hs_done = 1;
+                    fcntl(h_tls_peerfd, F_SETFL, fcntl(h_tls_peerfd, F_GETFL, 0) & ~O_NONBLOCK);
+                    break;
+                }
+                if (SSL_get_error(h_tls_peer, a) != SSL_ERROR_WANT_READ && SSL_get_error(h_tls_peer, a) != SSL_ERROR_WANT_WRITE) {
+                    h_tcl_drop_peer(); /* the handshake failed: the proxy's side will notice */
+                    break;
+                }
+                r = poll(fds, n, 0);
+                if (r != 0)
+                    return r; /* the proxy's side has something to do first */
+                {
+                    struct pollfd pf = {h_tls_peerfd, POLLIN, 0};
+                    poll(&pf, 1, 20);
+                }
+            }
+            if (!h_tcl_hs_done)
+                return poll(fds, n, 100);
+        }
+    }
     for (;;) {
         int r = poll(fds, n, 0);
         if (r != 0)
             return r;
-        if (h_tls_pos >= h_tls_nscript)
+        if (h_tls_pos >= h_tls_nscript) {
+            if (h_tcl_mode) {
+                h_thread_park_forever(); /* the reader stays blocked on its connection; the episode is over - until the next one */
+                continue;
+            }
             return timeout < 0 ? -1 : 0;
+        }
         {
             char *ev = h_tls_script[h_tls_pos++];
             if (ev[0] == 'w' || ev[0] == 'W') {
@@ -700,6 +786,120 @@ static int op_tlsdial(int argc, char **argv, FILE *out) {
     (free)(tr);
     X509_free(x);
     return 1;
+}
+
+/* srvconn for a TLS server: see h_tls_poll. The reader thread and its connection stay between episodes (as in h_tcp_client). */
+extern int h_tlsconnect_keep(struct server *server);
+extern void *h_tlsclientrd(void *arg);
+extern int h_tlsconnect_real(struct server *server, int timeout, int reconnect);
+static struct h_tcl_ent {
+    struct server *srv;
+    int listener, peerfd, had, hs;
+    SSL *peer;
+    void *thread;
+} h_tcl_tab[8];
+static int h_tcl_n;
+void h_tls_client_reset(void) {
+    for (int i = 0; i < h_tcl_n; i++) {
+        if (h_tcl_tab[i].listener >= 0)
+            close(h_tcl_tab[i].listener);
+        if (h_tcl_tab[i].peer) {
+            SSL_free(h_tcl_tab[i].peer);
+            close(h_tcl_tab[i].peerfd);
+        }
+    }
+    h_tcl_n = 0;
+}
+int h_tls_client(struct server *server, struct protodefs *pd, char **script, int nscript) {
+    static char *full[260];
+    struct h_tcl_ent *e = NULL;
+    int i;
+    if (nscript > 256 || !server->conf->pskkey || !server->conf->pskid)
+        return -1;
+    if (!h_tcl_ctx) {
+        h_tcl_ctx = SSL_CTX_new(TLS_server_method());
+        if (!h_tcl_ctx)
+            return -1;
+        SSL_CTX_set_min_proto_version(h_tcl_ctx, TLS1_3_VERSION);
+        SSL_CTX_set_psk_find_session_callback(h_tcl_ctx, h_tcl_find);
+        SSL_CTX_set_num_tickets(h_tcl_ctx, 0);
+    }
+    for (i = 0; i < h_tcl_n; i++)
+        if (h_tcl_tab[i].srv == server)
+            e = &h_tcl_tab[i];
+    for (i = 0; i < nscript; i++)
+        full[i] = script[i];
+    h_tls_script = full;
+    h_tls_nscript = nscript;
+    h_tls_pos = 0;
+    h_tcl_key = (const unsigned char *)server->conf->pskkey;
+    h_tcl_keylen = server->conf->pskkeylen;
+    pd->connecter = h_tlsconnect_real;
+    if (!e) {
+        struct hostportres *hp = (struct hostportres *)list_first(server->conf->hostports)->data;
+        struct sockaddr_in a;
+        socklen_t al = sizeof(a);
+        pthread_t th;
+        int l, one = 1;
+        if (h_tcl_n == 8 || !hp->addrinfo || hp->addrinfo->ai_family != AF_INET) {
+            pd->connecter = NULL;
+            h_tls_script = NULL;
+            return -1;
+        }
+        l = socket(AF_INET, SOCK_STREAM, 0);
+        memset(&a, 0, sizeof(a));
+        a.sin_family = AF_INET;
+        a.sin_addr.s_addr = htonl(INADDR_LOOPBACK);
+        setsockopt(l, SOL_SOCKET, SO_REUSEADDR, &one, sizeof(one));
+        if (l < 0 || bind(l, (struct sockaddr *)&a, sizeof(a)) || listen(l, 8) || getsockname(l, (struct sockaddr *)&a, &al)) {
+            pd->connecter = NULL;
+            h_tls_script = NULL;
+            return -1;
+        }
+        /* the home server "is" at the address the configuration resolved to; only the way there leads to our listener */
+        *(struct sockaddr_in *)hp->addrinfo->ai_addr = a;
+        e = &h_tcl_tab[h_tcl_n++];
+        e->srv = server;
+        e->listener = l;
+        e->peer = NULL;
+        e->peerfd = -1;
+        e->had = 0;
+        e->hs = 0;
+        h_tcl_listener = l;
+        h_tls_peer = NULL;
+        h_tls_peerfd = -1;
+        h_tcl_had = 0;
+        h_tcl_hs_done = 0;
+        h_tcl_mode = 1;
+        if (!h_tlsconnect_real(server, 0, 0)) {
+            pd->connecter = NULL;
+            h_tcl_mode = 0;
+            h_tls_script = NULL;
+            return -1;
+        }
+        h_pthread_create(&th, NULL, h_tlsclientrd, server); /* returns when the reader is blocked on a fresh connection, script used up */
+        e->thread = h_thread_find(server);
+        h_thread_hide(e->thread); /* "the thread of this server" remains its writer */
+    } else {
+        h_tcl_listener = e->listener;
+        h_tls_peer = e->peer;
+        h_tls_peerfd = e->peerfd;
+        h_tcl_had = e->had;
+        h_tcl_hs_done = e->hs;
+        h_tcl_mode = 1;
+        h_thread_step(e->thread);
+    }
+    e->peer = h_tls_peer;
+    e->peerfd = h_tls_peerfd;
+    e->had = h_tcl_had;
+    e->hs = h_tcl_hs_done;
+    h_tls_peer = NULL;
+    h_tls_peerfd = -1;
+    h_tcl_listener = -1;
+    h_tcl_mode = 0;
+    h_tls_script = NULL;
+    pd->connecter = NULL;
+    return 0;
 }
 
 int h_tls_op(const char *op, int argc, char **argv, FILE *out) {
